@@ -216,7 +216,7 @@ Proof.
   { eapply settle_all_ok; [exact R| |exact E0]. apply all_ok_set_conns. apply Forall_push_all. exact H. }
   match type of E with context [match ?r with DpeOk _ => _ | DpeInternalError => _ end] => destruct r as [d1|] eqn:E1 end; [|discriminate E].
   assert (H1 : all_ok d1).
-  { destruct (negb (d_private d0)); [eapply do_peer_exchange_ok; eauto|].
+  { destruct (d_pexen d0); [eapply do_peer_exchange_ok; eauto|].
     destruct (d_pex_active d0); [|inversion E1; subst; exact H0].
     destruct (disable_all (d_size_pex d0) (d_conns d0)) as [l sp] eqn:Ed. inversion E1; subst.
     unfold all_ok. cbn. eapply disable_all_ok; eauto. }
@@ -226,10 +226,10 @@ Qed.
 
 Lemma step_ok : forall fx d op d' o, repaired fx -> all_ok d -> step fx d op = SOk d' o -> all_ok d'.
 Proof.
-  intros fx d op d' o R H E. destruct op as [i|i ms| |i|i b]; cbn [step] in E.
+  intros fx d op d' o R H E. destruct op as [i|i ms| |i|i b|b]; cbn [step] in E.
   - destruct (existsb (N.eqb i) (d_used d)); inversion E; subst; [exact H|].
     unfold all_ok. cbn. apply Forall_app. split; [exact H|]. constructor; [|constructor].
-    destruct (negb (d_private d) && d_pex_active d && (d_size_pex d <? Params.c20_max_size_pex)); vm_compute; reflexivity.
+    destruct (d_pexen d && d_pex_active d && (d_size_pex d <? Params.c20_max_size_pex)); vm_compute; reflexivity.
   - destruct (find_conn i (d_conns d)) as [c|] eqn:Ef; [|inversion E; subst; exact H].
     eapply settle_ok; [exact R| |exact E]. apply all_ok_set_conns. apply Forall_replace; [|exact H].
     rewrite okc_push_sock. eapply (find_conn_P (fun c => okc c = true)); eauto.
@@ -241,6 +241,7 @@ Proof.
     eapply settle_ok; [exact R| |exact E]. apply all_ok_set_conns. apply Forall_replace; [|exact H].
     pose proof (find_conn_P (fun c => okc c = true) _ _ _ H Ef) as Hc. cbv beta in Hc.
     unfold okc in *. cbn. destruct (c_io c); exact Hc.
+  - inversion E; subst. exact H.
 Qed.
 
 Lemma final_state_ok : forall fx ops d, repaired fx -> all_ok d -> all_ok (final_state fx d ops).
